@@ -80,3 +80,44 @@ def dea(case):
                     if not abs(res - r3[0]) <= 1e-9 * max(1.0, abs(r3[0])):
                         bad.append(dict(limexp=limexp, sequence=name, term=2, dea=res, dea3=float(r3[0]))); break
     return dict(reproduced=bool(bad), failing=bad[:4], statement='Dea accepts sequences of any length, returns finite values with abserr >= 5 eps |result|')
+
+
+@reg('C14.shift')
+def shift(case):
+    """(1) the real _shift_table on concrete tables against qelg's shift; (2) behaviour: after the irregular-behaviour guard
+    truncated the table to the newest term, Dea continues like the epsilon algorithm on the retained terms"""
+    import numdifftools.extrapolation as ex
+    bad = []
+    for L in range(3, 22, 2):
+        for old_n in range(L):
+            newelm = old_n // 2
+            for n in sorted({old_n} | {2 * i for i in range(newelm)} | ({L - 2} if old_n == L - 1 else set())):
+                tab = np.arange(100.0, 100.0 + L + 5)
+                e = {i + 1: tab[i] for i in range(len(tab))}
+                num, n1 = old_n + 1, n + 1
+                ib = 2 if (num // 2) * 2 == num else 1
+                for _ in range(newelm + 1):
+                    e[ib] = e[ib + 2]; ib += 2
+                if num != n1:
+                    indx = num - n1 + 1
+                    for i in range(1, n1 + 1):
+                        e[i] = e[indx]; indx += 1
+                ref = np.array([e[i + 1] for i in range(len(tab))])
+                got = ex.Dea._shift_table(tab.copy(), n, newelm, old_n)
+                if not np.array_equal(got[:n + 1], ref[:n + 1]) and len(bad) < 3:
+                    bad.append(dict(limexp=L, old_n=old_n, n=n, table='100, 101, ...', kept=got[:n + 1].tolist(), expected=ref[:n + 1].tolist()))
+    rng = np.random.default_rng(5)
+    beh = []
+    for npre in range(0, 8):
+        prefix = list(rng.normal(size=npre) * 3) + [2.0, 5.0]          # (2, 5, 8) arithmetic: the guard fires when 8 arrives
+        tail = [4.0 + 4.0 * 0.5 ** k for k in range(3)]                  # t_0 = 8, limit 4
+        for limexp in (7, 21, 51):
+            d = ex.Dea(limexp)
+            for v in prefix:
+                d(v)
+            for v in tail:
+                res, err = d(v)
+            if not abs(res - 4.0) <= 1e-9:
+                beh.append(dict(terms_before_t0=npre + 2, limexp=limexp, sequence=[float(x) for x in prefix + tail], got=float(res), expected=4.0))
+    return dict(reproduced=bool(bad or beh), failing=bad[:2] + beh[:2],
+                statement='_shift_table keeps the newest n+1 entries (qelg); Dea recovers L + a q^k from the 3 terms retained after a guard')
